@@ -2,6 +2,7 @@ package eval
 
 import (
 	"fmt"
+	"strings"
 	"ti/base"
 	"ti/context"
 	"ti/parser"
@@ -116,6 +117,11 @@ func (m *Module) Evaluation(
 
 	nextFrame := m.getNextFrame(ctx)
 	class := nextT.ToString()
+
+	// `module Outer::` - a name with an empty component is no name
+	if strings.HasSuffix(class, "::") || strings.Contains(class, ":::") {
+		return fmt.Errorf("syntax error: '%s' is not a module name", class)
+	}
 
 	ctx.SetFrame(nextFrame)
 	ctx.SetClass(class)
